@@ -9,7 +9,8 @@ RULE = ("random interleaved sequences of GetImage / GetInverseImage / GetPreimag
         "arguments as arrays, lists, tuples, integer-typed values, x as float / np.float64 / int 0 and 1); every result is compared bitwise with the same "
         "single query put to a fresh object with the current bounds and density, every argument is compared with a copy taken before the call (and again after later operations), boxes include those on which the affine map degenerates ([-1/2,1/2]^N, [0,1]^N, [-1,1]^N, per-axis mixtures), and every "
         "array returned earlier is re-compared with its copy after every later operation. Non-trivial: sequence with >= 20 operations including both "
-        "directions; distinct = (N, m, sequence index).")
+        "directions; distinct = (N, m, sequence index)."
+       ' Every sixth sequence queries Solver.evolvent while other Solvers with the same N and m are built and stepped; a quarter of the SetBounds operations move to a nearby box.')
 ASSUMPTIONS = ["a fresh Evolvent object answering a single query is the reference for 'depends only on the argument, bounds and density'"]
 SIZES = {"quick": 800, "thorough": 25000}
 
